@@ -110,6 +110,8 @@ def gen_case(run_seed: int, tier: str) -> dict[str, Any]:
     if envr.random() < 0.15:
         # modification times far in the past / in the future (mtime-based shortcuts)
         tree[docs[0]] = dict(tree[docs[0]], mtime=envr.choice([946684800, 4102444800, 1]))
+    if envr.random() < 0.12:
+        tree[docs[0]] = dict(tree[docs[0]], xattr=1)  # the file carries user.* extended attributes
     ident = sub_rng(run_seed, "identity")
     euid = ident.choice([None] * 5 + [0, 1000, 65534])
     if euid is not None and ident.random() < 0.6:
